@@ -939,7 +939,7 @@ pub fn run_check(tier: &str) -> i32 {
             serde_json::json!({
                 "scenarios": pf.scenarios, "process_runs": pf.executions, "faults_fired": pf.fired,
                 "by_libc_call": pf.fired_by_call, "exited_nonzero": pf.outcome_err, "exited_zero": pf.outcome_ok_same,
-                "rule": "for each sampled well-formed invocation whose phase succeeds, every k-th file-system call beneath its world fails once with EIO, EACCES and ENOSPC: never exit 100, handler at most once, exactly once if detect/build code ran and the exit is non-zero, never exit 0 after the handler ran",
+                "rule": "for each sampled well-formed invocation whose phase succeeds, every k-th file-system call beneath its world fails once with EIO, EACCES, ENOSPC and ENOTDIR: never exit 100, handler at most once, exactly once if detect/build code ran and the exit is non-zero, never exit 0 after the handler ran",
             }),
         );
         pf.violations as i64
